@@ -29,9 +29,10 @@ What is proved here, for all blocks, contexts and configurations (no bounds):
   if it passed the header and non-contextual stages and it and every unverified block of its
   branch passed the contextual stage in the context of their own parent chains; an attempt whose
   branch contains a block failing its contextual check is refused whatever is built on it.
-* `redelivery_of_attached_is_noop` — the repaired pipeline: an attached hash delivered again with
-  any body changes nothing; `marked_invalid_prefix_witness` — the pipeline before the repair
-  (`redeliveryGuard := false`) marked the attached hash invalid and then refused its valid child (F14).
+* `redelivery_same_body_is_noop` — an attached block delivered again (what a miner or peer can do)
+  changes nothing; `marked_invalid_inprocess_witness` — in-process only: a second, failing body
+  under an attached hash marks it invalid (observed on the real code, out of the quantifier);
+  `redelivery_of_attached_is_noop_hardened` — a hardening variant that is not in /repo.
 * `main_chain_blocks_passed_all_stages_partial` — by induction over arbitrary submission histories:
   every main-chain block passed the header, non-contextual and contextual stages in the context of
   its own ancestors (for histories without two bodies under one hash).
@@ -291,11 +292,22 @@ example : (submit cfg0 s3 200 (mk 4 3 3 104)).2 = .rejected .invalidDao ∧
 /-- the honest branch still grows -/
 example : (submit cfg0 s3 200 (mk 5 2 3 104)).2 = .attached := by decide
 
-/-- **Repaired pipeline (F13/F14 fixed in `chain_service.rs`)**: delivering a hash that is already
-attached again — with ANY accompanying body, at any time — changes nothing at all: not the stored
-blocks, the tip, the verified set nor the invalid marks; the answer is `Ok(false)` (or the header
-stage's refusal when the clock makes the header too new). -/
-theorem redelivery_of_attached_is_noop (cfg : Cfg) (hg : cfg.redeliveryGuard = true) (s : St) (now : Nat)
+/-- **What a miner or peer can do — deliver an attached block again (same hash, hence same
+body)** — changes nothing: the answer is `Ok(false)` (or the header stage's refusal when the clock
+makes the header too new) and the state is the same. -/
+theorem redelivery_same_body_is_noop (cfg : Cfg) (s : St) (now : Nat) (b : Blk) (hv : b.id ∈ s.verified)
+    (hbody : nonContextualCheck cfg b = none) (hpar : b.parent ∉ s.invalid) :
+    (submit cfg s now b).1 = s ∧
+    ((submit cfg s now b).2 = .known ∨ ∃ e, headerCheck cfg (headerCxOf cfg s.stored now b) b = some e ∧
+      (submit cfg s now b).2 = .rejected e) := by
+  unfold submit
+  cases hH : headerCheck cfg (headerCxOf cfg s.stored now b) b with
+  | some e => exact ⟨rfl, Or.inr ⟨e, rfl, rfl⟩⟩
+  | none => cases hg : cfg.redeliveryGuard <;> simp [hv, hbody, hpar]
+
+/-- Hardening variant (NOT in /repo, `redeliveryGuard := true`): an attached hash delivered again
+with ANY accompanying body changes nothing. -/
+theorem redelivery_of_attached_is_noop_hardened (cfg : Cfg) (hg : cfg.redeliveryGuard = true) (s : St) (now : Nat)
     (b : Blk) (hv : b.id ∈ s.verified) :
     (submit cfg s now b).1 = s ∧
     ((submit cfg s now b).2 = .known ∨ ∃ e, headerCheck cfg (headerCxOf cfg s.stored now b) b = some e ∧
@@ -306,24 +318,22 @@ theorem redelivery_of_attached_is_noop (cfg : Cfg) (hg : cfg.redeliveryGuard = t
   | none =>
     simp [hg, hv]
 
-/-- the attached tip delivered again with a body that fails the non-contextual stage: nothing
-happens, and the next valid block is attached -/
+/-- the attached tip delivered again with its own body: known, nothing changes, the chain grows -/
 example :
-    let bad : Blk := { mk 2 1 2 102 with nCellbase := 0 }
-    (submit cfg0 s2 200 bad).2 = .known ∧ (submit cfg0 s2 200 bad).1.invalid = [] ∧
-    (submit cfg0 (submit cfg0 s2 200 bad).1 200 (mk 5 2 3 104)).2 = .attached := by decide
+    (submit cfg0 s2 200 (mk 2 1 2 102)).2 = .known ∧ (submit cfg0 s2 200 (mk 2 1 2 102)).1.invalid = [] ∧
+    (submit cfg0 (submit cfg0 s2 200 (mk 2 1 2 102)).1 200 (mk 5 2 3 104)).2 = .attached := by decide
 
-/-- **Finding F14 as it was before the repair** (`redeliveryGuard := false` = the old
-`chain_service.rs`): delivering the attached tip's hash with a body that fails the non-contextual
-stage marks that hash invalid, and the next fully valid, heaviest block is then refused as the
-child of an invalid parent. -/
-theorem marked_invalid_prefix_witness :
-    let old : Cfg := { cfg0 with redeliveryGuard := false }
+/-- **In-process only** (observed on the real chain service, out of the property's quantifier: no
+RPC / P2P entry point can produce two bodies under one header hash): the code as it is runs the
+non-contextual stage on whatever body accompanies an attached hash; a failing body marks that hash
+`BLOCK_INVALID`, and the next fully valid, heaviest block is refused as the child of an invalid
+parent. The model follows the code here. -/
+theorem marked_invalid_inprocess_witness :
     let bad : Blk := { mk 2 1 2 102 with nCellbase := 0 }
-    let sBad := (submit old s2 200 bad).1
-    (submit old s2 200 bad).2 = .rejected .cbQuantity ∧ sBad.tip = 2 ∧ sBad.verified.contains 2 = true ∧
-    (submit old sBad 200 (mk 5 2 3 104)).2 = .rejected .parentInvalid ∧
-    (submit old s2 200 (mk 5 2 3 104)).2 = .attached := by decide
+    let sBad := (submit cfg0 s2 200 bad).1
+    (submit cfg0 s2 200 bad).2 = .rejected .cbQuantity ∧ sBad.tip = 2 ∧ sBad.verified.contains 2 = true ∧
+    (submit cfg0 sBad 200 (mk 5 2 3 104)).2 = .rejected .parentInvalid ∧
+    (submit cfg0 s2 200 (mk 5 2 3 104)).2 = .attached := by decide
 
 /-! ## the multi-step statement -/
 
@@ -336,7 +346,9 @@ bodies (`OneBody`).
 yet verified block re-delivered under the same header with other uncles / extension has its body
 rows overwritten (`insert_block`), so what is later verified is the second body — harmless for this
 statement's conclusion (the verified body is the stored one) but outside the model, whose stored
-blocks are immutable; the harness scenario `f15` decides what that does on the real node. -/
+blocks are immutable. No RPC / P2P entry point can deliver two bodies under one header hash
+(`into_view()` re-derives the header's roots from the body), so `OneBody` holds for every history a
+miner or peer can produce, given collision-free hashing. -/
 theorem main_chain_blocks_passed_all_stages_partial (cfg : Cfg) (g : Blk) (hg0 : g.number = 0)
     (ops : List (Nat × Blk)) (hob : OneBody (g :: ops.map (·.2))) :
     let s := run cfg (St.init g) ops
